@@ -9,8 +9,13 @@ From Coq Require Import String.
 Local Open Scope string_scope.
 
 (* every request handler body is the term the interpreter runs *)
-Lemma handlers_tie : Gen_handlers.handlers = Hostile.handlers.
+(* _handle_cmp and _handle_ctxexit exist in two forms (before / after their repairs); the generated facts cmp_guard and
+   ctx_catches_all say which one the tree has, and the whole table is the model's table for those facts *)
+Lemma handlers_tie : Gen_handlers.handlers = Hostile.handlers_of Gen_handlers.cmp_guard Gen_handlers.ctx_catches_all.
 Proof. reflexivity. Qed.
+Lemma variants_tie : (Gen_handlers.cmp_guard = None \/ Gen_handlers.cmp_guard = Some Hostile.CMP_NAMES)
+  /\ (Gen_handlers.ctx_catches_all = false \/ Gen_handlers.ctx_catches_all = true).
+Proof. split; [first [left; reflexivity | right; reflexivity]|first [left; reflexivity | right; reflexivity]]. Qed.
 Lemma dispatch_tie : Gen_handlers.dispatch = Hostile.dispatch.
 Proof. reflexivity. Qed.
 (* every handler number of consts.py is routed *)
